@@ -37,8 +37,8 @@ func wlRender(f WLFile) string {
 
 // wlSetup runs before the synctest bubble exists, so that fsnotify's goroutines live outside it.
 func wlSetup(p *Plan) error {
-	dir, err := os.MkdirTemp("", "simwl")
-	if err != nil {
+	dir := filepath.Join(os.TempDir(), fmt.Sprintf("simwl-%d-%d", os.Getpid(), time.Now().UnixNano()))
+	if err := os.MkdirAll(dir, 0o700); err != nil {
 		return err
 	}
 	wl = &wlState{dir: dir, events: make(chan string, 1024)}
